@@ -37,7 +37,10 @@
 EXTENDS Prepare, Json, IOUtils, TLCExt
 
 Log == ndJsonDeserialize(IOEnv.VF_TRACE)
-TArity == Log[1].arity          \* a record = a function on the statement names
+\* arity of every statement name any scenario of the file declares (records = functions on the names)
+Inits == {i \in 1 .. Len(Log) : Log[i].ev = "init"}
+TArity == [n \in UNION {DOMAIN Log[i].arity : i \in Inits} |->
+             Log[CHOOSE i \in Inits : n \in DOMAIN Log[i].arity].arity[n]]
 TCanc == Nat
 
 VARIABLES l,    \* next line
@@ -134,12 +137,16 @@ OnLookup(ev, T, Y0) ==
                             !.ex[e].got = IF i0 = 0 THEN <<>> ELSE SubSeq(@ \o <<NoId, NoId>>, 1, i0 - 1)]
   IN
   IF ~disc /\ i0 = 0 THEN Res(T1, [Y EXCEPT !.lost = TRUE], pv, "lookup-of-a-foreign-key")
-  ELSE IF InLRU(T2, k) # (ev.ev = "c_hit") THEN Res(T2, [Y EXCEPT !.lost = TRUE], pv, "cache-tracking-lost")
+  ELSE IF ev.ev = "c_hit" /\ ~InLRU(T2, k) THEN Res(T2, [Y EXCEPT !.lost = TRUE], pv, "cache-tracking-lost")
   ELSE
-  LET T3 == Lookup(T2, e)
+  \* A miss on a key that IS in the cache (the cache length the hook reports agrees with the history): the code
+  \* inserts a second in-flight entry over the first without having looked - lookup and insert are not one
+  \* critical section.  The old entry is overwritten (no removal the property licenses), PreparedOnce decides.
+  LET over == ev.ev = "c_miss" /\ InLRU(T2, k)
+      T3 == Lookup(IF over THEN ForceDrop(T2, k) ELSE T2, e)
       Y1 == [Y EXCEPT !.over = IF Len(T3.lru) > Y.cap THEN k ELSE NoKey,
                       !.ordOK = IF Len(T3.lru) <= 1 THEN TRUE ELSE IF fuzzy THEN FALSE ELSE @]
-  IN Res(T3, Y1, pv, IF disc THEN "" ELSE "lookup-unexpected")
+  IN Res(T3, Y1, pv, IF over THEN "insert-over-existing-entry" ELSE IF disc THEN "" ELSE "lookup-unexpected")
 
 OnGone(ev, T, Y) ==
   LET k == ev.key IN
@@ -309,6 +316,10 @@ OnEnd(ev, T, Y) ==
          ELSE IF ev.cls \in {"timeout", "closed"} /\ Y.lostn > 0
          THEN Res(Finish(T, e, "err_ctx"), Y, direct, "")   \* collateral of a killed connection / short timeout
          ELSE Res(Finish(T, e, "err_prepare"), Y, direct, "prepare-error-unexplained-" \o ev.cls)
+    [] ev.cls = "prepared" ->   \* prepare-only executor (burst driver): prepareStatement returned the flight's result
+         LET T1 == AdvTo(T, e, {"arity", "done"}) IN
+         IF T1.ex[e].pc = "arity" THEN Res(Finish(T1, e, "ok"), Y, direct, "")
+         ELSE Res(Finish(T1, e, "ok"), Y, direct, "prepared-unexpected")
     [] ev.cls = "arity" ->
          LET T1 == AdvTo(T, e, {"done", "lookup", "send"}) IN
          IF T1.ex[e].pc = "done" /\ T1.ex[e].res = "err_arity" THEN Res(T1, Y, direct, "")
